@@ -239,8 +239,12 @@ func runC06(c *Ctx) {
 		"(2) BitMatrix decoders: square and non-square 1..200, valid symbols (writers / constructed from arbitrary codewords) with mutated modules, Aztec detector results consistent and inconsistent; " +
 		"(3) every 1-D row decoder: random, run-structured, writer output with mutations/truncation/scaling, crafted symbol sequences with valid checksums (Code 39/93 escapes, Code 128 code sets, UPC/EAN extensions); " +
 		"(4) images 1x1..400x400 random/structured/rendered symbols/test photographs with pixel mutations, crops, rotations to all image readers with well-typed hint maps; " +
-		"plus model correspondence for BitSource.ReadBits, parseECIValue, code39/code93 extended decoding. non-trivial = distinct input"
+		"plus model correspondence for BitSource.ReadBits, parseECIValue, code39/code93 extended decoding, and (suites *-total) for the decoder models proved total: " +
+		"QR / Data Matrix bit-stream parsers on boundary streams named by the proofs (every mode nibble x every truncation of its count field, counts beyond the data, " +
+		"C40/Text pair (0,0) in every shift state, every Base-256 length header, EDIFACT tails) and on the structured/random/truncated streams; QR Decoder.Decode and the " +
+		"Data Matrix BitMatrixParser/getDataBlocks on random matrices of table and non-table dimensions (non-square included) and on valid symbols with mutated, mirrored or damaged modules. non-trivial = distinct input"
 	c06Model(c)
+	c06Total(c)
 	c06Parsers(c)
 	c06Matrices(c)
 	c06Rows(c)
